@@ -61,4 +61,30 @@ for it in range(R.n(30, 500)):
     cons = cad2.consolidate()
     R.check('consolidate/data-in-order-absolute-times', dict(c, slew=slew), np.array_equal(cons.data, np.concatenate([f.data for f in frames], axis=0))
             and np.allclose(cons.ts, np.concatenate([f.ts + f.t_start for f in frames])) and cons.t_start == frames[0].t_start and cons.fchans == n, None)
+# an abort that is not an Exception (KeyboardInterrupt) in frame k: the time axes still come back
+for kbad in (0, 1, 2):
+    frs = [stg.Frame(fchans=32, tchans=4, df=2.0, dt=10.0, fch1=4096.0, ascending=True, t_start=1000.0 + 100.0 * q) for q in range(3)]
+    cad = stg.Cadence(frs)
+    before = [f.ts.copy() for f in frs]
+    calls = {'n': 0}
+
+    def tp(tt):
+        calls['n'] += 1
+        if calls['n'] == kbad + 1:
+            raise KeyboardInterrupt()
+        return np.ones_like(tt)
+    try:
+        cad.add_signal(stg.constant_path(4100.0, 0.01), tp, stg.gaussian_f_profile(4.0))
+        raised = False
+    except KeyboardInterrupt:
+        raised = True
+    R.check('ts/restored-after-a-non-Exception-abort', dict(raise_in_frame=kbad), raised and all(np.allclose(f.ts, b, rtol=0, atol=1e-9) for f, b in zip(frs, before)), [float(f.ts[0]) for f in frs])
+# selecting frames from a cadence built with t_overwrite=True does not re-time the (shared) frames
+frs = [stg.Frame(fchans=32, tchans=4, df=2.0, dt=10.0, fch1=4096.0, ascending=True, t_start=0.0) for q in range(4)]
+cad = stg.Cadence(frs, t_slew=60.0, t_overwrite=True)
+t_before = [f.t_start for f in frs]
+for sel in (slice(0, None, 2), slice(1, 3), [3, 1], (0, 2)):
+    sub = cad[sel]
+    R.check('selection/shared-frames-keep-their-start-times', dict(selection=str(sel)), [f.t_start for f in frs] == t_before and len(sub) == len(frs[sel] if isinstance(sel, slice) else sel),
+            [f.t_start for f in frs], t_before)
 R.finish()
